@@ -194,7 +194,7 @@ func (g *SessionManager) getXid(msg interface{}) string {
 		xid = tmpMsg.Xid
 	} else if tmpMsg, ok := msg.(message.BranchReportRequest); ok {
 		xid = tmpMsg.Xid
-	} else {
+	} else if msg != nil {
 		msgType := reflect.TypeOf(msg)
 		msgValue := reflect.ValueOf(msg)
 		if msgType.Kind() == reflect.Ptr {
